@@ -18,7 +18,7 @@ RULE = ('one case = one complete run of NSGA-II / eps-MOEA / OMOPSO / SMPSO / PS
         'last vectors).')
 ASSUMPTIONS = [
     'in-run invariant only: "all ranked populations" is covered on the pools that arise in runs',
-    'fronts in which two individuals share one features dict (PSOGA, observation O4) are skipped and counted',
+    'fronts in which two individuals share one features dict are skipped and counted (probe aliased_features; none since PSOGA was repaired, F5)',
     'crowding interior formula compared to 1e-12 relative',
     '"distinct designs" = designs with non-identical coordinate vectors',
 ]
@@ -28,7 +28,7 @@ COMPONENTS = {
     'stub': ['user objective', 'PRNG seam (also reports the tournament draw)', 'joblib', 'time.time', 'uuid1'],
 }
 PROBES_EXPECTED = ['truncate_other_k', 'truncate_k_ge_len', 'truncate_calls', 'truncate_cut_inside_front', 'truncate_with_duplicates', 'crowding_calls', 'crowding_small_front',
-                   'crowding_exact_formula', 'crowding_with_ties', 'crowding_zero_range', 'aliased_features', 'tournament_calls',
+                   'crowding_exact_formula', 'crowding_with_ties', 'crowding_zero_range', 'tournament_calls',
                    'tournament_front_decides', 'tournament_dominance_decides', 'tournament_random']
 
 
